@@ -81,6 +81,9 @@ pub struct Cfg {
     /// number of cache entries (0: 64); sizes 1 and 2 make edge histories evict and re-insert keys
     #[serde(default)]
     pub cache_size: usize,
+    /// the energy model's own (output) time unit when it differs from the unit the time model stores its feature in
+    #[serde(default)]
+    pub service_time_unit: Option<TimeUnit>,
     pub real_model: bool,
 }
 
@@ -197,7 +200,7 @@ fn build(cfg: &Cfg) -> Result<Built, String> {
         time_model_speed_unit: cfg.time_speed_unit,
         grade_table: Arc::new(Some(grades.into_boxed_slice())),
         grade_table_grade_unit: cfg.grade_table_unit,
-        time_unit: cfg.time_time_unit,
+        time_unit: cfg.service_time_unit.unwrap_or(cfg.time_time_unit),
         distance_unit: cfg.out_distance_unit,
         vehicle_library: lib,
     };
@@ -430,6 +433,8 @@ fn configs(tier: Tier) -> Vec<Cfg> {
                                 adjustment: if (mi + ti) % 2 == 0 { 1.0 } else { 1.3958 },
                                 cache,
                                 cache_size: *csize,
+                                // every third configuration: the energy model is configured with another time unit than the time model
+                                service_time_unit: if (mi + ti + ci + ki) % 3 == 1 { Some([TimeUnit::Hours, TimeUnit::Minutes, TimeUnit::Seconds, TimeUnit::Milliseconds][(mi + ki) % 4]) } else { None },
                                 real_model: false,
                             });
                         }
@@ -458,6 +463,7 @@ fn configs(tier: Tier) -> Vec<Cfg> {
                     adjustment: 1.1,
                     cache: cap > 1.0,
                     cache_size: if soc == json!(100) { 2 } else { 0 },
+                    service_time_unit: if cap > 1.0 { Some(TimeUnit::Seconds) } else { None },
                     real_model: true,
                 });
             }
@@ -538,6 +544,7 @@ pub fn run(tier: Tier) -> i32 {
                 adjustment: 1.0,
                 cache: false,
                 cache_size: 0,
+                service_time_unit: None,
                 real_model: false,
             };
             // a missing starting charge is an error for the hybrid only (the BEV defaults to full)
@@ -553,7 +560,7 @@ pub fn run(tier: Tier) -> i32 {
     finish(
         &info,
         st,
-        "state = one powertrain configuration (ICE/BEV/PHEV x prediction-model units x time-model units x output units x battery capacity x starting charge x prediction cache {off, 64, 1, 2 entries}, synthetic smooth models incl. negative rates downhill, and the bundled Camry/Bolt/Volt models behind the interpolated model); transition = one traverse_edge of the real EnergyTraversalModel in an edge history (all sequences up to length 4 (quick) / 5 (thorough) over 12 edge types = 2 lengths x 2 speeds x 3 grades); oracle = reference energy and state-of-charge arithmetic with clamp and PHEV mode switch; non-trivial = every configuration",
+        "state = one powertrain configuration (ICE/BEV/PHEV x prediction-model units x time-model units x output units x battery capacity x starting charge x prediction cache {off, 64, 1, 2 entries} x energy model's time unit {same as the time model's, different}, synthetic smooth models incl. negative rates downhill, and the bundled Camry/Bolt/Volt models behind the interpolated model); transition = one traverse_edge of the real EnergyTraversalModel in an edge history (all sequences up to length 4 (quick) / 5 (thorough) over 12 edge types = 2 lengths x 2 speeds x 3 grades); oracle = reference energy and state-of-charge arithmetic with clamp and PHEV mode switch; non-trivial = every configuration",
         true,
         json!({"configurations": n, "edge_types": n_types, "max_history_length": tier.pick(4, 5), "histories": hists_full.len()}),
         vec![
